@@ -279,6 +279,8 @@ def runtime_patch_names():
     return sorted(names)
 
 
+RUNS = []
+FFS6 = ["AMBER", "CHARMM", "PARSE", "PEOEPB", "SWANSON", "TYL06"]
 OPT = ["HIS", "HID", "HIE", "HIP", "ASN", "GLN", "SER", "THR", "TYR", "CYS", "ASH", "GLH"]
 
 
@@ -305,6 +307,64 @@ def observe_instances():
             if r["exc"] is not None:
                 raise GenError(f"instance run {args} failed: {r['exc']!r}")
             out += mon.order
+            RUNS.append((chains + wat + wat_h, mon, r["result"][2]))
+    return out
+
+
+TERMINAL_PATCHES = ("PEPTIDE", "NTERM", "CTERM", "NEUTRAL-NTERM", "NEUTRAL-CTERM", "5TERM", "3TERM")
+
+
+def pipeline_cases(runs):
+    """One concrete pipeline case per residue of the observation runs (default options,
+    nothing missing): input names, terminus patch effects, final reference, protocol kind,
+    cleanup / histidine choice and the force-field residue name the run ended with."""
+    from harness import builder as B
+    from pdb2pqr import aa
+
+    defs = B.definitions()
+    out, seen = [], set()
+    for atoms, mon, bio in runs:
+        inp = {}
+        for a in atoms:
+            inp.setdefault((a.chain, str(a.resseq) + a.icode), []).append(a.name)
+        recs = {id(r.residue): r for r in mon.order}
+        for res in bio.residues:
+            if not isinstance(res, (aa.Amino, aa.WAT)):
+                continue
+            ns = inp.get((res.chain_id, str(res.res_seq) + res.ins_code))
+            if ns is None:
+                continue
+            patches = list(getattr(res, "patches", []))
+            if any(p not in TERMINAL_PATCHES for p in patches):
+                continue  # state patches after repair: outside the theorem (ps2 = [])
+            ps1 = []
+            for pn in patches:
+                pt = defs.patches[pn]
+                alts = cl("(" + cs(o) + ", " + cs(n) + ")" for o, n in pt.altnames.items())
+                ps1.append(f"mkPF {cl(map(cs, pt.remove))} {alts}")
+            rec = recs.get(id(res))
+            kind = "PNone"
+            if rec is not None:
+                _t, k, _b, _e = instance_of(rec)
+                if k.startswith("KCarb"):
+                    continue
+                kind = {"KFlip": "(PFlip " + k[len("KFlip "):] + ")", "KAlc ": "(PAlc " + k[len("KAlc "):] + ")", "KWat": "PWat"}[k[:5] if k != "KWat" else "KWat"]
+            final = [a.name for a in res.atoms]
+            his = "None"
+            if isinstance(res, aa.HIS) and "HIP" not in patches and res.name not in ("HIP", "HSP"):
+                his = "(Some false)" if ("HE2" in final and "HD1" not in final) else "(Some true)"
+            clt = "None"
+            if res.name in ("ASH", "GLH"):
+                continue
+            pos = "N" if getattr(res, "is_n_term", False) else ("C" if getattr(res, "is_c_term", False) else "I")
+            tag = f"{res.name}/{pos}/" + "+".join(p for p in patches if p != "PEPTIDE")
+            row = (f"mkPC {cs(tag)} {cs(res.ffname)} {cl(map(cs, res.reference.map.keys()))} {cl(ps1)} {cl(map(cs, ns))} "
+                   f"false {kind} {clt} {his}")
+            if row not in seen:
+                seen.add(row)
+                out.append(row)
+    if len(out) < 30:
+        raise GenError(f"only {len(out)} pipeline cases observed")
     return out
 
 
@@ -391,7 +451,10 @@ def generate(write=True):
     for key, p in definition.patches.items():
         prow.append(f"mkpatch {cs(key)} {cs(p.name)} {cl(map(cs, p.map.keys()))} {cl(map(cs, p.remove))} {'true' if key in runtime else 'false'}")
     rrows = repair_templates(definition)
+    del RUNS[:]
     recs = observe_instances()
+    prow = prow  # noqa
+    pcs = pipeline_cases(RUNS)
     seen = {}
     for rec in recs:
         inst = instance_of(rec)
@@ -442,11 +505,53 @@ Proof. vm_compute. reflexivity. Qed.
 Lemma patch_table_ok : patches_ok patches = true.
 Proof. vm_compute. reflexivity. Qed.
 """
+    ffimports = " ".join(f"Generated.FF_{f}" for f in FFS6)
+    ffdefs = "\n".join(
+        f"Definition entry_{f} (c : pcase) : string -> bool := entry_of FF_{f}.built (pc_ffname c).\n"
+        f"Definition full_{f} : list pcase := filter (fun c => pcase_entries (entry_{f} c) c) pcases."
+        for f in FFS6
+    )
+    ptxt = f"""(* GENERATED by /verif/gen/c03_table.py - do not edit.
+   Concrete one-residue pipeline cases observed on builder peptides (default options, nothing
+   missing), and for each of the six force fields the predicate "the built map
+   (Generated/FF_<ff>.v, C01) has an entry for (ffname, atom name)" through the shared name
+   interning of Generated/E2ENames.v. *)
+From Coq Require Import String List Bool PArith.
+From PV Require Import Lib.Strings Model.NameProtocol Model.ForceField Generated.E2ENames.
+From PV Require {ffimports}.
+Import ListNotations.
+Local Open Scope string_scope.
+
+Definition idn (s : string) : option positive :=
+  match find (fun p => String.eqb (fst p) s) E2ENames.names with Some p => Some (snd p) | None => None end.
+
+Definition entry_of (m : ffmap) (ffname : string) (x : string) : bool :=
+  match idn ffname, idn x with
+  | Some r, Some a => match lookup m r a with Some _ => true | None => false end
+  | _, _ => false
+  end.
+
+Definition pcases : list pcase :=
+ [{sep.join(pcs)}].
+
+{ffdefs}
+
+(* obligations: every case meets the guard of the end-to-end theorem; per force field the
+   number of fully parameterised cases (non-vacuity) *)
+Lemma pcases_guard : forallb pcase_guard pcases = true.
+Proof. vm_compute. reflexivity. Qed.
+
+Definition full_counts : list nat :=
+  [{"; ".join(f"List.length full_{f}" for f in FFS6)}].
+"""
     if write:
         GEN.mkdir(parents=True, exist_ok=True)
         path = GEN / "C03Table.v"
         if not path.exists() or path.read_text() != txt:
             path.write_text(txt)
+        path = GEN / "C03Pipe.v"
+        if not path.exists() or path.read_text() != ptxt:
+            path.write_text(ptxt)
     return {"runtime": runtime, "instances": list(seen.values()), "n_patches": len(prow)}
 
 
